@@ -23,12 +23,24 @@ use num_traits::{Float, FromPrimitive};
 use rand::rngs::SmallRng;
 use rand::SeedableRng;
 use rand_distr::{Distribution, StandardNormal};
+#[cfg(mini_mcmc_verif)]
+use mcmc_sim::par::prelude::*;
+#[cfg(not(mini_mcmc_verif))]
 use rayon::prelude::*;
 use std::cmp::PartialEq;
 use std::error::Error;
 use std::marker::Send;
+#[cfg(mini_mcmc_verif)]
+use mcmc_sim::mpsc::{self, Receiver, Sender};
+#[cfg(mini_mcmc_verif)]
+use mcmc_sim::thread::{self};
+#[cfg(mini_mcmc_verif)]
+use mcmc_sim::time::{Duration, Instant};
+#[cfg(not(mini_mcmc_verif))]
 use std::sync::mpsc::{self, Receiver, Sender};
+#[cfg(not(mini_mcmc_verif))]
 use std::thread::{self};
+#[cfg(not(mini_mcmc_verif))]
 use std::time::{Duration, Instant};
 
 /// A trait that abstracts a single MCMC chain.
@@ -62,6 +74,8 @@ where
     let total = n_collect + n_discard;
 
     for i in 0..total {
+        #[cfg(mini_mcmc_verif)]
+        mcmc_sim::sched_point("run_chain_step");
         let state = chain.step();
         if i >= n_discard {
             let state_arr = ArrayView::from_shape(state.len(), state.as_slice()).unwrap();
@@ -319,6 +333,9 @@ where
                 if n_finished >= most_recent.len() {
                     break;
                 }
+                #[cfg(mini_mcmc_verif)]
+                thread::sleep(sleep_ms);
+                #[cfg(not(mini_mcmc_verif))]
                 std::thread::sleep(sleep_ms);
             }
         });
